@@ -7,6 +7,7 @@ CONSTANTS
   DeepClone = TRUE
   CommitOnFail = FALSE
   RemoveOnDelete = TRUE
-  MaxOps = 24
+  MigrateWipes = TRUE
+  MaxOps = 26
 INVARIANT GPrint
 CHECK_DEADLOCK FALSE
